@@ -199,9 +199,9 @@ def build():
         lambda a, k: f"(CReduce RSum {lz(a[0]['shape'])} {olz(a[1])} {b(a[2])})",
         lambda a, k: (len(a[0]["shape"]), None if a[1] is None else len(a[1]), a[2], numel(a[0]["shape"]) == 0)))
     F.append(_shape_fam(
-        "amax", "aten_amax", lambda x, d, kd_: torch.amax(x, d.tolist(), kd_), G.gen_amax,
-        lambda a, k: f"(CReduce RAmax {lz(a[0]['shape'])} (Some {lz(a[1]['data'])}) {b(a[2])})",
-        lambda a, k: (len(a[0]["shape"]), len(a[1]["data"]), a[2])))
+        "amax", "aten_amax", lambda x, d, kd_: torch.amax(x, [] if d is None else d.tolist(), kd_), G.gen_amax,
+        lambda a, k: f"(CReduce RAmax {lz(a[0]['shape'])} {'None' if a[1] is None else '(Some ' + lz(a[1]['data']) + ')'} {b(a[2])})",
+        lambda a, k: (len(a[0]["shape"]), None if a[1] is None else len(a[1]["data"]), a[2])))
     F.append(_shape_fam(
         "mean_dim", "aten_mean_dim", lambda x, d, kd_: torch.mean(x, d.tolist(), kd_), G.gen_mean_dim,
         lambda a, k: f"(CReduce RMean {lz(a[0]['shape'])} (Some {lz(a[1]['data'])}) {b(a[2])})",
